@@ -218,3 +218,36 @@ def real_run(func_name, args, timeout=180):
 
 def jd(x):
     return json.dumps(x, sort_keys=True)
+
+
+# ---------------------------------------------------------------------------------------
+def observe_call(func_name, args, out_root):
+    """One command call reduced to what a user can see: exit status / exception type, printed text, and
+    everything below ``out_root``.  Shared by the in-process harness and the fresh-process runner."""
+    from pydrobert.torch import command_line as C
+
+    res = run_cmd(getattr(C, func_name), args)
+    return {"rc": res["rc"] or 0, "exc": type(res["exc"]).__name__ if res["exc"] is not None else None,
+            "out": res["out"], "files": snapshot(out_root) if os.path.isdir(out_root) else None}
+
+
+def fresh_calls(jobs, workdir, timeout=900):
+    """jobs: list of dict(func, args, out).  Each job is executed as the FIRST command call of a process
+    (one interpreter is started, every job runs in a child forked from it before any command was called).
+    -> list of observations (json strings)"""
+    path = os.path.join(workdir, "fresh_jobs.json")
+    for i, j in enumerate(jobs):
+        j["result"] = os.path.join(workdir, "fresh_result_%d.json" % i)
+        j["args"] = [str(a) for a in j["args"]]
+    with open(path, "w") as f:
+        json.dump(jobs, f)
+    env = dict(os.environ, PYTHONWARNINGS="ignore", OMP_NUM_THREADS="1")
+    p = subprocess.run([sys.executable, "-m", "checks._c17_fresh", path], capture_output=True, text=True,
+                       timeout=timeout, env=env)
+    if p.returncode:
+        raise RuntimeError("fresh-process runner failed: " + p.stderr[-1500:])
+    out = []
+    for j in jobs:
+        with open(j["result"]) as f:
+            out.append(jd(json.load(f)))
+    return out
